@@ -856,7 +856,8 @@ def shard(idx, n, tier, seed, bins, cli):
         for t in range(ntrees):
             rng = runner.rng_for(seed, "c15", idx, t)
             tree = Tree(os.path.join(tmp, "t%d" % t), rng, t)
-            sh.mem_budget = {"c": mem_per_tree, "cb": mem_per_tree}
+            if tier != "quick" or t == 0:
+                sh.mem_budget = {"c": mem_per_tree + 1, "cb": mem_per_tree + 1}
             for c in range(per_tree):
                 k += 1
                 cfg = make_config(rng, tree, k)
